@@ -129,7 +129,11 @@ impl RWorld {
     }
     pub fn reset(&mut self) {
         self.rh.clear();
-        self.wh.clear();
+        // a handle whose drop panics must not take the harness down: streams drop the handles they
+        // care about explicitly (hdrop) and see the panic there
+        for h in self.wh.drain(..).flatten() {
+            let _ = guarded(move || drop(h));
+        }
         self.roots.clear();
         self.fs_objs.clear();
         self.leaves.clear();
